@@ -42,11 +42,24 @@ theorem iter_accumulated_owned_once (s : IW.Script) (ps : Nat → List IW.Req)
 
 def vec3 : KSrc := { kind := .vec, vals := [101, 102, 103] }
 
-/-- **Finding D5 (open)**: vec, one pull, then `skip_to_end`, then drop: positions 1 and 2 are neither handed
-out nor dropped (the counter says "all delivered"). -/
-theorem C08_finding_vec_skip_leaks_elements :
+/-- **skip_to_end on a consuming kind** (fix for D5): the swap returns the previous counter value `c`; the positions
+`[min(c,len), len)` are dropped by the skipping thread, the positions below were handed out (cursor theorem), and
+afterwards neither a pull nor `Drop` touches anything: handed out ++ dropped at the skip = `0..len`, each once. -/
+theorem skip_drops_the_rest (len : Nat) (as bs : List Atom) (hns : NoSkip as) (hw : NoWrap len as 0)
+    (hwb : NoWrap len bs (Atom.skip.next len (runAtoms len as 0))) :
+    delivered len as 0 ++ rangeList (min (runAtoms len as 0) len) len ++ delivered len bs (Atom.skip.next len (runAtoms len as 0))
+      ++ rangeList (min (runAtoms len bs (Atom.skip.next len (runAtoms len as 0))) len) len = List.range len := by
+  rw [skip_final len bs _ hwb, delivered_fresh len as hns hw]
+  have hend := (end_permanent len bs (Atom.skip.next len (runAtoms len as 0)) (by simp [Atom.next]) hwb).2
+  have : min (runAtoms len bs (Atom.skip.next len (runAtoms len as 0))) len = len := by omega
+  rw [this, rangeList_self, List.append_nil, List.append_nil, ← rangeList_zero, ← rangeList_zero]
+  exact rangeList_append 0 _ _ (Nat.zero_le _) (by unfold pos; omega)
+
+/-- the witness of the former finding D5 (vec, one pull, `skip_to_end`, drop): position 0 was moved out, the skip
+drops positions 1 and 2, `Drop` has nothing left to do. -/
+theorem C08_fixed_witness_vec_skip :
     let c := run vec3 [0, 0, 0, 0] (init vec3 fun t => if t = 0 then [⟨0, .next⟩, ⟨0, .skip⟩] else [])
-    c.mv = [0] ∧ (owner vec3 c .drop).1.dr = [] := by decide
+    c.mv = [0] ∧ c.dr = [1, 2] ∧ (owner vec3 c .drop).1.dr = [1, 2] := by decide
 
 /-- **Finding D12 (open)**: `AtomicIter::get(0)` twice from safe code moves element 0 out twice. -/
 theorem C08_finding_get_twice :
